@@ -113,6 +113,15 @@ StepD(i, o, d1) ==
        /\ nOwed' = nOwed + (IF Fall(i) /\ d1 # "none" THEN 1 ELSE 0)
        /\ nStrobes' = nStrobes + (IF o.cp \/ o.mm THEN 1 ELSE 0)
 
+\* A reset of the receiver's clock domain while the bus is quiet (rx_active low in this and the previous cycle; it
+\* may hit a pending strobe window or a pending ready_for_response): the outputs of the cycle are still judged,
+\* then everything owed is dropped and the receiver must behave like a fresh one.
+ResetLegal(i) == ~i.active /\ ~in.active
+ResetStepD(i, o) ==
+    /\ in' = i /\ out' = o
+    /\ pkt' = <<>> /\ sent' = 0 /\ idle' = Cap /\ due' = "none" /\ rfrw' = 0
+    /\ streamed' = <<>> /\ ev' = <<"init">> /\ sev' = NoEv /\ nOwed' = 0 /\ nStrobes' = 0
+
 Failing(i, o) == FailingD(i, o, Due1(i))
 Step(i, o)    == StepD(i, o, Due1(i))
 
